@@ -1,1 +1,2 @@
 import Spec.Tables
+import Spec.Slice
